@@ -183,12 +183,13 @@ def r1(ctx: Ctx, rid: str) -> None:
             and not any(isinstance(c, ast.Call) and (dotted(c.func) or "") == "tempfile.mkstemp" for c in do["calls"])
         ctx.ob(rid, wf, "os.replace(source = that temp, destination = resolved path)", r, ok_src and ok_dst,
                "the rename publishes exactly the temp file that was written")
-        wr = ctx.calls(wf, prim="os.write")
+        from .common import temp_fd_writes
+        wr = temp_fd_writes(ctx, wf)  # os.write(fd, ..) or fh.write(..) with fh = os.fdopen(fd)
         dom = ctx.dom(wf, NORMAL)
         ctx.ob(rid, wf, "content is written to the temp fd before the rename", r,
-               bool(wr) and all(w.id in dom[r.id] for w in wr) and all(
+               bool(wr) and all(w.id in dom[r.id] for w, _fd, _fl in wr) and all(
                    any(isinstance(c, ast.Call) and (dotted(c.func) or "") == "tempfile.mkstemp"
-                       for c in sl.origins(w.ast.args[0], w.id)["calls"]) for w in wr if isinstance(w.ast, ast.Call) and w.ast.args),
+                       for c in sl.origins(fd_, w.id)["calls"]) for w, fd_, _fl in wr),
                "os.write targets the mkstemp descriptor and dominates os.replace")
     # every other creating method of the local backend goes through write_file
     lb = ctx.prog.cls("storage_backend.LocalStorageBackend")
